@@ -1214,3 +1214,92 @@ pub fn c20_retry(policy: &[bool], results: &[Result<u64, String>], deadline_clas
 fn _unused(_: BTreeMap<u8, u8>) -> serde_json::Value {
     json!(null)
 }
+
+// =========================================================================================
+// C01: one long connection - every wire id is used by exactly one call
+
+/// A real spawned client over tarpc's in-memory channel, the harness plays the server by hand:
+/// one call that is never answered (it expires), then `calls` sequential round trips; every request
+/// must carry an id no earlier request of this connection carried, and every call must get the reply
+/// sent for *its* id; finally a late reply for the expired call's id must not disturb the next call.
+pub fn c01_long_run_ids(calls: usize) -> Outcome {
+    use futures::{SinkExt, StreamExt};
+    let mut out = Outcome::default();
+    out.desc = json!({"family": "S-long-run", "case": "id uniqueness over one long connection", "calls": calls});
+    let rt = tokio::runtime::Builder::new_current_thread().enable_time().start_paused(true).build().unwrap();
+    let res: Result<(u64, Vec<String>), String> = rt.block_on(async move {
+        let (c, mut s) = tarpc::transport::channel::unbounded::<Response<String>, ClientMessage<String>>();
+        let client = tarpc::client::new::<String, String, _>(tarpc::client::Config::default(), c).spawn();
+        let mut viols: Vec<String> = vec![];
+        let mut seen: std::collections::HashSet<u64> = std::collections::HashSet::new();
+        // the victim: transmitted, never answered, expires
+        let mut ctx = context::current();
+        ctx.deadline = std::time::Instant::now() + std::time::Duration::from_millis(50);
+        let cl = client.clone();
+        let victim = tokio::spawn(async move { cl.call(ctx, "victim".to_string()).await });
+        let id_x = loop {
+            match s.next().await {
+                Some(Ok(ClientMessage::Request(r))) => break r.id,
+                Some(Ok(_)) => continue,
+                other => return Err(format!("the server end saw {:?} instead of the first request", other.map(|x| x.map(|_| ())))),
+            }
+        };
+        seen.insert(id_x);
+        match victim.await {
+            Ok(Err(RpcError::DeadlineExceeded)) => {}
+            other => return Err(format!("the unanswered call ended with {:?}", other.map(|r| r.map_err(|e| e.to_string())))),
+        }
+        let mut served = 0u64;
+        for k in 0..calls + 1 {
+            if k == calls {
+                // a late reply for the expired call, just before the last round trip
+                let _ = s.send(Response { request_id: id_x, message: Ok("late reply to the victim".to_string()) }).await;
+            }
+            let cl = client.clone();
+            let body = format!("c{k}");
+            let b2 = body.clone();
+            let h = tokio::spawn(async move { cl.call(context::current(), b2).await });
+            let (id, msg) = loop {
+                match s.next().await {
+                    Some(Ok(ClientMessage::Request(r))) => break (r.id, r.message),
+                    Some(Ok(_)) => continue,
+                    other => return Err(format!("the server end saw {:?} at call {k}", other.map(|x| x.map(|_| ())))),
+                }
+            };
+            if !seen.insert(id) && viols.len() < 3 {
+                viols.push(format!("wire id {id} of call #{k} was already used by an earlier request of this connection ({} requests so far)", seen.len()));
+            }
+            if msg != body {
+                return Err(format!("call {k}: the request carried {msg:?}"));
+            }
+            let _ = s.send(Response { request_id: id, message: Ok(format!("reply to {msg}")) }).await;
+            match h.await {
+                Ok(Ok(r)) if r == format!("reply to {body}") => served += 1,
+                other => {
+                    if viols.len() < 3 {
+                        viols.push(format!("call #{k} ({body}) completed with {:?}, the reply sent for its id was \"reply to {body}\"", other.map(|r| r.map_err(|e| e.to_string()))));
+                    }
+                    if viols.len() >= 3 {
+                        break;
+                    }
+                }
+            }
+        }
+        Ok((served, viols))
+    });
+    match res {
+        Err(e) => out.inconclusive = Some(format!("long-run id case could not run: {e}")),
+        Ok((served, viols)) => {
+            for v in viols {
+                let rule = if v.starts_with("wire id") { "wire-id-reused" } else { "foreign-reply" };
+                out.viol("C01", rule, v);
+            }
+            out.count("long_run_round_trips", served);
+            out.cell("C01.long-connection.id-uniqueness");
+            out.nontrivial("C01");
+        }
+    }
+    out.sig = 0xC01_1D5;
+    out.trace = vec![format!("{calls} sequential round trips on one connection after an expired call")];
+    out
+}
